@@ -219,6 +219,7 @@ def run_case(case, ctx):
         return
     if k == "query":
         _query(case, ctx)
+        _query_two_collections(case, ctx)
         return
     from bcv.core import HarnessError
 
@@ -254,6 +255,17 @@ def _objects_at(c):
             yield ("annotation-collection", ac, s, e)
             ac2 = AnnotationCollection(genes=[g], start=max(0, s - 7), end=e + 9)
             yield ("annotation-collection-bounds", ac2, max(0, s - 7), e + 9)
+    # members whose children lie on either side of the boundary with none of them spanning it: the member's own bin is the bin of
+    # its span, which is coarser than every child's
+    for w in (30, 3000):
+        if c - w < 1:
+            continue
+        t1 = TranscriptInterval([c - w], [c - 10], Strand.PLUS)
+        t2 = TranscriptInterval([c + 10], [c + w], Strand.PLUS)
+        yield ("gene-split-across-boundary", GeneInterval([t1, t2]), c - w, c + w)
+        f1 = FeatureInterval([c - w], [c - 10], Strand.MINUS)
+        f2 = FeatureInterval([c + 10], [c + w], Strand.PLUS)
+        yield ("feature-collection-split-across-boundary", FeatureIntervalCollection([f1, f2]), c - w, c + w)
 
 
 def _stored(case, ctx, bins):
@@ -316,6 +328,30 @@ def _query(case, ctx):
         got2 = None if exc is not None else sorted(g.gene_id for g in res.genes)
         ctx.check("bin.query-e2e", got2 == want2, key=("relaxed", "raised" if exc else "value"), centre=c, q=[qs, qe], got=got2, want=want2,
                   exc=repr(exc)[:150] if exc else None)
+
+
+def _query_two_collections(case, ctx):
+    """The same strict window asked of two different collections in one process (either order): each answer depends on its own
+    collection only (bin sets computed for a window must not be narrowed by what another collection happened to hold)."""
+    from inscripta.biocantor.gene import TranscriptInterval, GeneInterval, AnnotationCollection
+    from inscripta.biocantor.location import Strand
+
+    c = case["centre"]
+    if c - 120 < 1:
+        return
+
+    def coll(side):
+        s, e = (c - 90, c - 60) if side == "left" else (c + 30, c + 40)
+        return AnnotationCollection(genes=[GeneInterval([TranscriptInterval([s], [e], Strand.PLUS)], gene_id="g-" + side)], start=c - 120, end=c + 120)
+
+    for order in (("left", "right"), ("right", "left")):
+        cols = {side: coll(side) for side in order}
+        for qs, qe in ((c - 100, c + 100), (c - 119, c + 119)):
+            for side in order + order:      # asked twice: the second round sees whatever the first one left behind
+                res, exc = ctx.call(cols[side].query_by_position, qs, qe, completely_within=True)
+                got = None if exc is not None else sorted(g.gene_id for g in res.genes)
+                ctx.check("bin.query-e2e", got == ["g-" + side], key=("two-collections-same-window", "raised" if exc else "value"), centre=c, q=[qs, qe],
+                          order=list(order), asked=side, got=got, want=["g-" + side], exc=repr(exc)[:150] if exc else None)
 
 
 def classify(v):
